@@ -27,9 +27,10 @@ type Cfg struct {
 	Hole        int       `json:"hole"`
 	Req         int       `json:"req"`
 	Short       bool      `json:"short"`
-	Deck        []string  `json:"deck"`              // pinned order, installed right after Start()
-	Invalid     string    `json:"invalid,omitempty"` // invalid-configuration run: Start() must refuse
-	Rig         string    `json:"rig,omitempty"`     // how the deck order was chosen (informational)
+	Deck        []string  `json:"deck"`                  // pinned order, installed right after Start()
+	Invalid     string    `json:"invalid,omitempty"`     // invalid-configuration run: Start() must refuse
+	Rig         string    `json:"rig,omitempty"`         // how the deck order was chosen (informational)
+	ViaBackend  bool      `json:"via_backend,omitempty"` // the hand is created through table.NativeBackend.CreateGame
 }
 
 func (c *Cfg) N() int { return len(c.Seats) }
@@ -206,6 +207,7 @@ func DrawCfg(r *sim.RNG) *Cfg {
 		c.Seats[i].Bankroll = b
 	}
 	c.Deck, c.Rig = drawDeck(r, c)
+	c.ViaBackend = r.Chance(0.25)
 	return c
 }
 
